@@ -13,6 +13,7 @@ import (
 	"net"
 	"os"
 	"sync"
+	"sync/atomic"
 	"time"
 
 	"github.com/TarsCloud/TarsGo/tars"
@@ -235,6 +236,7 @@ func c10StartSched(cfg c10Cfg, imp *c10Imp) (w *c10Wrap, tcpAddr, udpAddr string
 }
 
 var c10WaitCap = 25 * time.Second
+var c10CapHits int32
 
 // ---------- scripted raw client ----------
 type c10Collector struct {
@@ -336,6 +338,12 @@ func c10RunOnce(s *c10Scn, addr string, imp *c10Imp) error {
 	}
 	// send: per connection the concatenation of its requests (TCP: in scripted chunk sizes; UDP: one datagram each)
 	var sendErr error
+	var sendMu sync.Mutex
+	setErr := func(err error) {
+		sendMu.Lock()
+		sendErr = err
+		sendMu.Unlock()
+	}
 	var wg sync.WaitGroup
 	for ci := range conns {
 		wg.Add(1)
@@ -348,7 +356,7 @@ func c10RunOnce(s *c10Scn, addr string, imp *c10Imp) error {
 				}
 				if s.UDP {
 					if _, err := conns[ci].Write(s.Reqs[i].Pkg); err != nil {
-						sendErr = err
+						setErr(err)
 					}
 					continue
 				}
@@ -363,7 +371,7 @@ func c10RunOnce(s *c10Scn, addr string, imp *c10Imp) error {
 					n = len(stream)
 				}
 				if _, err := conns[ci].Write(stream[:n]); err != nil {
-					sendErr = err
+					setErr(err)
 					return
 				}
 				stream = stream[n:]
@@ -377,7 +385,11 @@ func c10RunOnce(s *c10Scn, addr string, imp *c10Imp) error {
 		}
 		return sendErr
 	}
-	deadline := time.Now().Add(c10WaitCap)
+	waitCap := c10WaitCap
+	if atomic.LoadInt32(&c10CapHits) >= 3 && waitCap > 3*time.Second {
+		waitCap = 3 * time.Second // the expected replies / calls keep not coming: the verdict is settled, do not wait it out every time
+	}
+	deadline := time.Now().Add(waitCap)
 	callsDone := func() bool {
 		imp.mu.Lock()
 		defer imp.mu.Unlock()
@@ -398,8 +410,9 @@ func c10RunOnce(s *c10Scn, addr string, imp *c10Imp) error {
 		time.Sleep(5 * time.Millisecond)
 	}
 	if !(col.count() >= wantReplies && callsDone()) {
+		atomic.AddInt32(&c10CapHits, 1)
 		imp.mu.Lock()
-		s.Note = fmt.Sprintf("gave up waiting after 25 s: %d of %d expected replies, implementation log %v / %v for the calls %v", col.count(), wantReplies, imp.started, imp.finished, wantCalls)
+		s.Note = fmt.Sprintf("gave up waiting after %v: %d of %d expected replies, implementation log %v / %v for the calls %v", waitCap, col.count(), wantReplies, imp.started, imp.finished, wantCalls)
 		imp.mu.Unlock()
 	} else {
 		s.Note = ""
@@ -474,6 +487,7 @@ func c10ChildMain(inPath, outPath string) {
 	}
 	var pingMu sync.Mutex
 	var outMu sync.Mutex
+	var persistent int32
 	flush := func() {
 		outMu.Lock()
 		pb, _ := json.Marshal(batch)
@@ -502,6 +516,9 @@ func c10ChildMain(inPath, outPath string) {
 				defer pingMu.Unlock()
 			}
 			for try := 1; try <= 3; try++ {
+				if try > 1 && atomic.LoadInt32(&persistent) >= 2 {
+					break // two scenarios have already failed three times in a row: no point in re-running every other one
+				}
 				s.Tries = try
 				if wrap != nil {
 					wrap.mu.Lock()
@@ -548,6 +565,9 @@ func c10ChildMain(inPath, outPath string) {
 				}
 				if !retry {
 					break
+				}
+				if try == 3 {
+					atomic.AddInt32(&persistent, 1)
 				}
 				if try < 3 {
 					for _, f := range fs {
